@@ -950,9 +950,12 @@ def server_payload(draw, s_ord, seq):
 
 def client_payload(draw, s_ord, seq):
     tag = 'C%d.%d~' % (s_ord, seq)
-    kind = draw(st.sampled_from(['text', 'text', 'json', 'bytes', 'jsontext', 'qtext']))
+    kind = draw(st.sampled_from(['text', 'text', 'json', 'bytes', 'jsontext', 'qtext', 'wide']))
     if kind == 'text':
         return tag + draw(text_suffix())
+    if kind == 'wide':
+        # non-ASCII text: fewer characters than bytes (size limits count one or the other)
+        return tag + '\u00e9' * draw(st.sampled_from([20, 50, 55, 57, 100, 190]))
     if kind == 'json':
         return draw(st.sampled_from([{'tag': tag}, {'tag': tag, 'x': [1, 'a', None]}, [tag, 2],
                                      {'tag': tag, 'half': '\ud83d'}]))
